@@ -388,7 +388,7 @@ func (fr *Frame) applyContract(st *State, fn *ssa.Function, c *LoadedContract, a
 	for _, cl := range clauses {
 		if cl.Kind == "requires" {
 			g := ex.inst(Implies(cl.PC, cl.Cond), st, st)
-			ex.assert(st, "pre", cl.Name+"@"+key+"<-"+fr.fn.Name()+fr.siteSuffix(pos), cl.Tags, g, fr.pos(pos))
+			ex.assert(st, "pre", cl.Name+"@"+key+"<-"+fr.fn.Name()+fr.siteSuffix("pre:"+cl.Name+"@"+key+"<-"+fr.fn.Name()), cl.Tags, g, fr.pos(pos))
 		}
 	}
 	pre := st.clone()
@@ -420,6 +420,18 @@ func (fr *Frame) applyContract(st *State, fn *ssa.Function, c *LoadedContract, a
 		if comp == "Alloc" {
 			r := Bound{Name: ex.boundName("r"), Sort: SRef}
 			ex.assume(st, Forall([]Bound{r}, Implies(Select(old, V(r.Name, SRef)), Select(nw, V(r.Name, SRef)))))
+		}
+		if lr, ok := ex.lockRelyOfComp(comp); ok && sort == ArraySort(SRef, SInt) {
+			// a lock-protected field with a declared rely: whatever the callee and the other threads did to it
+			// respected the relation (each critical section is checked against it where it is verified)
+			r := Bound{Name: ex.boundName("r"), Sort: SRef}
+			rv := V(r.Name, SRef)
+			body := Ge(Select(nw, rv), Select(old, rv))
+			if lr.Ranged {
+				body = And(body, Implies(And(Le(IntLit(lr.Lo), Select(old, rv)), Le(Select(old, rv), IntLit(lr.Hi))),
+					And(Le(IntLit(lr.Lo), Select(nw, rv)), Le(Select(nw, rv), IntLit(lr.Hi)))))
+			}
+			ex.assume(st, Forall([]Bound{r}, body))
 		}
 		if frame.freshOnly[comp] && strings.HasPrefix(sort, "(Array Ref ") {
 			// the callee writes this component only at objects it allocates itself
@@ -460,10 +472,14 @@ func (fr *Frame) applyContract(st *State, fn *ssa.Function, c *LoadedContract, a
 	return Val{Tup: results}
 }
 
-func (fr *Frame) siteSuffix(pos token.Pos) string {
-	// call sites are told apart by their ordinal within the caller, not by line
-	fr.ex.siteN++
-	return fmt.Sprintf("#%d", fr.ex.siteN)
+func (fr *Frame) siteSuffix(key string) string {
+	// sites are told apart by their ordinal among the sites of the same kind (same callee and clause, same
+	// field) within the function under verification, not by line: unrelated edits do not rename them
+	if fr.ex.siteCount == nil {
+		fr.ex.siteCount = map[string]int{}
+	}
+	fr.ex.siteCount[key]++
+	return fmt.Sprintf("#%d", fr.ex.siteCount[key])
 }
 
 // ---------------------------------------------------------------- loops
